@@ -452,6 +452,11 @@ class Check:
         os.makedirs(os.path.join(VERIF, "evidence"), exist_ok=True)
         with open(os.path.join(VERIF, "evidence", self.pid + ".json"), "w") as fh:
             json.dump(ev, fh, indent=1, ensure_ascii=True, default=str)
+        # whatever the program under test may have written to this process's real stdout/stderr without a final line break
+        # (a changed prompt, say): the verdict lines below always start at the beginning of a line
+        sys.stdout.flush()
+        sys.stderr.flush()
+        print("")
         for l in lines:
             print(l)
         if rc == 0:
